@@ -2,7 +2,7 @@
    Partial by design (DESIGN §C14): the eigen solvers are certificate-checked oracles in the correspondence. *)
 From Coq Require Import List Arith Bool Reals Ring Permutation Sorted.
 From PV Require Import Base.Index Base.Sum Np.Array Model.Sparse Model.Repr Model.C01Conv Model.C01Coo Model.C01Ttm Np.NpR Model.C14Nvecs Model.C14Gram Proofs.C14Sums
-                       Proofs.C14Split Proofs.C14GramSp Proofs.C14GramT Proofs.C14Post Model.C14Unfold Proofs.C14Unfold Model.C01Unique Model.C14SpPath Proofs.C14Coo Proofs.C14SpPath Model.C14SpChain Proofs.C14SpChain.
+                       Proofs.C14Split Proofs.C14GramSp Proofs.C14GramT Proofs.C14Post Model.C14Unfold Proofs.C14Unfold Model.C01Unique Model.C14SpPath Proofs.C14Coo Proofs.C14SpPath Model.C14SpChain Proofs.C14SpChain Model.C14SpPost Proofs.C14SpPost.
 Import ListNotations.
 
 Section C14_ring.
@@ -91,24 +91,25 @@ Theorem C14_coo_product : forall (C : coo V) (K N a b : nat), coo_shape C = [K; 
   Forall (fun rc => inb [K; N] rc = true) (coo_subs C) ->
   coo_gram v0 vadd vmul (coo_triples C) a b = sum_n v0 vadd K (fun k => vmul (den_coo v0 vadd C [k; a]) (den_coo v0 vadd C [k; b])).
 Proof. exact (coo_gram_den V v0 v1 vadd vmul vsub vopp Vring). Qed.
-(* wave 3b — sptensor.nvecs as the code runs it: old = setdiff1d(arange(N), n); reshape((prod(shape[old]), 1), old) transliterated over
-   the GENERATED tt_sub2ind / tt_ind2sub (regenerated from pyttb_utils.py on every run), squeeze(), C01's spmatrix(), transpose():
-   whenever mode n and the product of the other modes exceed 1 the request is accepted and tnt holds, in the stored order, exactly
-   the triples (F-order key of the other modes' subscripts, mode-n subscript, value) C14_gram_sparse speaks about *)
+(* wave 3b / 4 — sptensor.nvecs as the code runs it (after /repo f3d6beb, the repair of finding C14-F2): old = setdiff1d(arange(N), n);
+   reshape((prod(shape[old]), 1), old) and the second reshape(shape[:2]) both transliterated over the GENERATED tt_sub2ind / tt_ind2sub
+   (regenerated from pyttb_utils.py on every run), C01's spmatrix(), transpose(): for every tensor with at least two modes, unless mode n
+   AND the product of the other modes are both 1, the request is accepted and tnt holds, in the stored order, exactly the triples
+   (F-order key of the other modes' subscripts, mode-n subscript, value) C14_gram_sparse speaks about *)
 Theorem C14_sparse_rekey_bridge : forall (S : sparse V) (n : nat),
   let s := sshape S in
-  n < length s -> length (ssubs S) = length (svals S) -> Forall (fun i => inb s i = true) (ssubs S) ->
-  1 < nth n s 0 -> 1 < size (remove_nth n s) ->
-  exists C, sp_nvecs_tnt v0 S n = Some C /\ coo_shape C = [size (remove_nth n s); nth n s 0] /\
+  n < length s -> 2 <= length s -> length (ssubs S) = length (svals S) -> Forall (fun i => inb s i = true) (ssubs S) ->
+  ~ (nth n s 0 = 1 /\ size (remove_nth n s) = 1) ->
+  exists C, sp_nvecs_tnt S n = Some C /\ coo_shape C = [size (remove_nth n s); nth n s 0] /\
             Forall (fun rc => inb (coo_shape C) rc = true) (coo_subs C) /\
             coo_triples C = sp_triples S n.
-Proof. exact (sp_triples_bridge V v0). Qed.
+Proof. exact (sp_triples_bridge V). Qed.
 
 (* hence y = tnt.T.dot(tnt) formed on that code path IS gram_sp_impl … *)
 Theorem C14_gram_sparse_code : forall (S : sparse V) (n : nat),
   let s := sshape S in
-  n < length s -> length (ssubs S) = length (svals S) -> Forall (fun i => inb s i = true) (ssubs S) ->
-  1 < nth n s 0 -> 1 < size (remove_nth n s) ->
+  n < length s -> 2 <= length s -> length (ssubs S) = length (svals S) -> Forall (fun i => inb s i = true) (ssubs S) ->
+  ~ (nth n s 0 = 1 /\ size (remove_nth n s) = 1) ->
   gram_sp_code_path v0 vadd vmul S n = Some (gram_sp_impl v0 vadd vmul S n).
 Proof. exact (gram_sp_code_path_eq V v0 vadd vmul). Qed.
 
@@ -116,20 +117,31 @@ Proof. exact (gram_sp_code_path_eq V v0 vadd vmul). Qed.
    bridge) and gram_spec of the denotation den_sp *)
 Theorem C14_gram_sparse_code_spec : forall (S : sparse V) (n a b : nat),
   let s := sshape S in
-  wf_sp isz S -> n < length s -> 1 < nth n s 0 -> 1 < size (remove_nth n s) -> a < nth n s 0 -> b < nth n s 0 ->
-  exists C Y, sp_nvecs_tnt v0 S n = Some C /\ coo_shape C = [size (remove_nth n s); nth n s 0] /\
+  wf_sp isz S -> n < length s -> 2 <= length s -> ~ (nth n s 0 = 1 /\ size (remove_nth n s) = 1) -> a < nth n s 0 -> b < nth n s 0 ->
+  exists C Y, sp_nvecs_tnt S n = Some C /\ coo_shape C = [size (remove_nth n s); nth n s 0] /\
     gram_sp_code_path v0 vadd vmul S n = Some Y /\
     mget v0 Y a b = sum_n v0 vadd (size (remove_nth n s)) (fun k => vmul (den_coo v0 vadd C [k; a]) (den_coo v0 vadd C [k; b])) /\
     mget v0 Y a b = gram_spec v0 vadd vmul s (den_sp v0 S) n a b.
 Proof. exact (gram_sp_code_path_spec V v0 v1 vadd vmul vsub vopp Vring isz). Qed.
 
-(* the other side of that condition (open finding C14-F2, here as a theorem about the code path): when mode n has size <= 1, or the
-   other modes are all singletons, squeeze() leaves fewer than two modes and the request is REFUSED (AssertionError of spmatrix /
-   ValueError), although the property asks for the 1 x 1 answer the other representations give *)
-Theorem C14_sparse_singleton_refused : forall (S : sparse V) (n : nat),
+(* finding C14-F2 (repaired in /repo f3d6beb) as the POSITIVE theorem that replaces C14_sparse_singleton_refused: a singleton mode n
+   (other modes not all singleton), or all other modes singleton (mode n not), is ANSWERED by the code path, and the matrix handed to the
+   solver is gram_sp_impl = gram_spec of the denotation (the 1 x 1 matrix of the squared norm when mode n is the singleton) *)
+Theorem C14_sparse_singleton_answered : forall (S : sparse V) (n : nat),
   let s := sshape S in
-  n < length s -> nth n s 0 <= 1 \/ size (remove_nth n s) <= 1 -> sp_nvecs_tnt v0 S n = None.
-Proof. exact (sp_nvecs_tnt_refused V v0). Qed.
+  wf_sp isz S -> n < length s -> 2 <= length s ->
+  (nth n s 0 = 1 /\ 1 < size (remove_nth n s)) \/ (1 < nth n s 0 /\ size (remove_nth n s) = 1) ->
+  exists C Y, sp_nvecs_tnt S n = Some C /\ coo_shape C = [size (remove_nth n s); nth n s 0] /\
+    gram_sp_code_path v0 vadd vmul S n = Some Y /\ Y = gram_sp_impl v0 vadd vmul S n /\
+    forall a b, a < nth n s 0 -> b < nth n s 0 -> mget v0 Y a b = gram_spec v0 vadd vmul s (den_sp v0 S) n a b.
+Proof. exact (sp_singleton_answered V v0 v1 vadd vmul vsub vopp Vring isz). Qed.
+
+(* the one refusal left on this path: mode n AND the product of the other modes are 1 — ValueError("Cannot call nvecs on sptensor with
+   only singleton dimensions"), a documented restriction pinned by tests/test_sptensor.py::test_sptensor_nvecs *)
+Theorem C14_sparse_all_singleton_refused : forall (S : sparse V) (n : nat),
+  let s := sshape S in
+  n < length s -> nth n s 0 = 1 -> size (remove_nth n s) = 1 -> sp_nvecs_tnt S n = None.
+Proof. exact (sp_nvecs_tnt_all_singleton V). Qed.
 
 (* wave 3b — the multi-mode sptensor.ttm chain H = core.ttm(V) of the sparse-core branch as the code runs it: first mode by the
    coordinate-level kernel of sptensor.ttm (C02_ttm_sparse; its ndarray result goes through from_array / to_sptensor / to_tensor),
@@ -159,7 +171,8 @@ End C14_ring.
 Print Assumptions C14_sparse_rekey_bridge.
 Print Assumptions C14_gram_sparse_code.
 Print Assumptions C14_gram_sparse_code_spec.
-Print Assumptions C14_sparse_singleton_refused.
+Print Assumptions C14_sparse_singleton_answered.
+Print Assumptions C14_sparse_all_singleton_refused.
 Print Assumptions C14_sparse_ttm_chain.
 Print Assumptions C14_gram_tucker_sparse_core_code.
 Print Assumptions C14_gram_tucker_sparse_core_code_spec.
@@ -219,12 +232,17 @@ Proof. exact coo_gram_example. Qed.
 
 Example C14_example_sparse_code_path :
   let S := mkSp [2; 3; 2] [[1; 2; 0]; [0; 0; 1]; [1; 0; 0]; [0; 2; 0]] [5; 2; 3; 4] in
-  sp_nvecs_tnt 0 S 1 = Some (mkCoo [4; 3] [[1; 2]; [2; 0]; [1; 0]; [0; 2]] [5; 2; 3; 4]) /\
-  sp_nvecs_tnt 0 S 0 = Some (mkCoo [6; 2] [[2; 1]; [3; 0]; [0; 1]; [2; 0]] [5; 2; 3; 4]) /\
+  sp_nvecs_tnt S 1 = Some (mkCoo [4; 3] [[1; 2]; [2; 0]; [1; 0]; [0; 2]] [5; 2; 3; 4]) /\
+  sp_nvecs_tnt S 0 = Some (mkCoo [6; 2] [[2; 1]; [3; 0]; [0; 1]; [2; 0]] [5; 2; 3; 4]) /\
   gram_sp_code_path 0 Nat.add Nat.mul S 1 = Some [[13; 0; 15]; [0; 0; 0]; [15; 0; 41]] /\
   gram_sp_code_path 0 Nat.add Nat.mul S 0 = Some [[20; 20]; [20; 34]] /\
-  sp_nvecs_tnt 0 (mkSp [1; 4; 3] [[0; 1; 2]; [0; 3; 0]] [2; 1]) 0 = None /\
-  sp_nvecs_tnt 0 (mkSp [3; 1] [[0; 0]; [2; 0]] [2; 3]) 0 = None.
+  sp_nvecs_tnt (mkSp [1; 4; 3] [[0; 1; 2]; [0; 3; 0]] [2; 1]) 0 = Some (mkCoo [12; 1] [[9; 0]; [3; 0]] [2; 1]) /\
+  gram_sp_code_path 0 Nat.add Nat.mul (mkSp [1; 4; 3] [[0; 1; 2]; [0; 3; 0]] [2; 1]) 0 = Some [[5]] /\
+  sp_nvecs_tnt (mkSp [3; 1] [[0; 0]; [2; 0]] [2; 3]) 0 = Some (mkCoo [1; 3] [[0; 0]; [0; 2]] [2; 3]) /\
+  gram_sp_code_path 0 Nat.add Nat.mul (mkSp [3; 1] [[0; 0]; [2; 0]] [2; 3]) 0 = Some [[4; 0; 6]; [0; 0; 0]; [6; 0; 9]] /\
+  sp_nvecs_tnt (mkSp [1; 1; 1] [[0; 0; 0]] [7]) 2 = None /\
+  sp_nvecs_tnt_old 0 (mkSp [1; 4; 3] [[0; 1; 2]; [0; 3; 0]] [2; 1]) 0 = None /\
+  sp_nvecs_tnt_old 0 (mkSp [3; 1] [[0; 0]; [2; 0]] [2; 3]) 0 = None.
 Proof. exact sp_path_example. Qed.
 
 Example C14_example_sparse_chain :
@@ -241,6 +259,43 @@ Example C14_example_gram :
   gram_k_impl 0%nat Nat.add Nat.mul (mkK [2; 1] [[[1; 0]; [1; 2]]; [[3; 1]; [0; 1]; [1; 0]]]) 0 = [[40; 52]; [52; 72]]
   /\ gram_dense_impl 0%nat Nat.add Nat.mul (mkDense [2; 3] [6; 8; 0; 2; 2; 2]) 0 = [[40; 52]; [52; 72]].
 Proof. split; reflexivity. Qed.
+
+(* wave 4 — the post-processing of sptensor.nvecs AS THE CODE RUNS IT (Model/C14SpPost.v; open finding A-38): the dense-solver path
+   permutes the ROWS of eig's eigenvector matrix by argsort(-|w|), the iterative path keeps eigs' vectors in ARPACK's order.  The class
+   on which this is nevertheless the post-processing of the other representations (postprocess; C14_postprocess, C14_sign_rule): the
+   solver output already has |w| non-increasing — then the stable argsort is the identity … *)
+Theorem C14_argsort_sorted_id : forall (V : Type) (vabs : V -> V) (vltb : V -> V -> bool) (w : list V),
+  StronglySorted (abs_nonincr vabs vltb) w -> argsort_desc_abs vabs vltb w = seq 0 (length w).
+Proof. exact argsort_sorted_id. Qed.
+Print Assumptions C14_argsort_sorted_id.
+(* … the row permutation of the dense-solver path permutes nothing … *)
+Theorem C14_sparse_post_dense_sorted : forall (V : Type) (v0 : V) (vabs vopp : V -> V) (vltb : V -> V -> bool)
+    (w : list V) (cols : list (list V)) (r : nat) (flip : bool),
+  StronglySorted (abs_nonincr vabs vltb) w -> length cols = length w -> Forall (fun c => length c = length w) cols ->
+  sp_post_dense v0 vabs vopp vltb w cols r flip = postprocess v0 vabs vopp vltb w cols r flip.
+Proof. exact sp_post_dense_sorted. Qed.
+Print Assumptions C14_sparse_post_dense_sorted.
+(* … and the unsorted vectors of the iterative path are sorted; always so for r = 1 *)
+Theorem C14_sparse_post_iter_sorted : forall (V : Type) (v0 : V) (vabs vopp : V -> V) (vltb : V -> V -> bool)
+    (w : list V) (cols : list (list V)) (flip : bool),
+  StronglySorted (abs_nonincr vabs vltb) w -> length cols = length w ->
+  sp_post_iter v0 vabs vopp vltb cols flip = postprocess v0 vabs vopp vltb w cols (length w) flip.
+Proof. exact sp_post_iter_sorted. Qed.
+Print Assumptions C14_sparse_post_iter_sorted.
+Theorem C14_sparse_post_iter_one : forall (V : Type) (v0 : V) (vabs vopp : V -> V) (vltb : V -> V -> bool) (x : V) (c : list V) (flip : bool),
+  sp_post_iter v0 vabs vopp vltb [c] flip = postprocess v0 vabs vopp vltb [x] [c] 1 flip.
+Proof. exact sp_post_iter_one. Qed.
+Print Assumptions C14_sparse_post_iter_one.
+(* the defect itself (A-38) on a 2 x 2 instance: |w| increasing — both code paths differ from the selection of the other representations *)
+Example C14_example_sparse_post :
+  let zabs := fun z : nat => z in let zopp := fun z : nat => z in
+  postprocess 0 zabs zopp Nat.ltb [1; 3] [[1; 2]; [3; 4]] 2 false = [[3; 4]; [1; 2]] /\
+  sp_post_dense 0 zabs zopp Nat.ltb [1; 3] [[1; 2]; [3; 4]] 2 false = [[2; 1]; [4; 3]] /\
+  sp_post_iter 0 zabs zopp Nat.ltb [[1; 2]; [3; 4]] false = [[1; 2]; [3; 4]] /\
+  postprocess 0 zabs zopp Nat.ltb [3; 1] [[1; 2]; [3; 4]] 2 false = [[1; 2]; [3; 4]] /\
+  sp_post_dense 0 zabs zopp Nat.ltb [3; 1] [[1; 2]; [3; 4]] 2 false = [[1; 2]; [3; 4]] /\
+  sp_post_dense 0 zabs zopp Nat.ltb [3; 1] [[1; 2]; [3; 4]] 1 false = [[1; 2]].
+Proof. exact sp_post_example. Qed.
 
 Local Open Scope R_scope.
 (* selection: for ANY solver output (w, columns) the code returns the columns of the r largest |w| in decreasing order *)
